@@ -27,4 +27,21 @@ PROPS = {
         "assumptions": ["glue around the generated conditions (loop of IndexByDate, construction order of NewTemporalLogClient) is hand-modelled and tied by correspondence only"],
         "partial": [],
     },
+    "C07": {
+        "harness": "c07",
+        "technique": "Coq proof over gofrag-translated int64 range arithmetic + handler model, differential correspondence over HTTP",
+        "level_text": "range_contract is proved for ALL int64 start/end/max (with Go's wrap-around written into the generated definitions), "
+                      "so the overflow and alignment boundaries are covered by proof, not sampling; the handler's sanity checks and byte pass-through "
+                      "are a hand model tied to the real handler over HTTP with a scripted backend (honest, short, surplus, mis-indexed, garbled root, small tree, RPC errors).",
+        "level_note": "Trusted: Coq kernel, gofrag, strconv.ParseInt (modelled as value-or-error), encoding/json and base64 of the response, the scripted backend. "
+                      "Entry decoding (LogEntryFromLeaf) is covered under C04/C12, not here.",
+        "gen_units": ["GetEntries.v", "HttpStatus.v"],
+        "coq_deps": ["CTFE/GetEntriesProofs"],
+        "case_lib": "CTFE/GetEntriesCase",
+        "rule": "cases = (start,end) from an overflow/alignment boundary grid x max in {1,2,7,1000,2^31,2^62,2^63-1,small random} x align x 12 backend behaviours; "
+                "distinct = distinct Coq case term; non-trivial = all (each is one HTTP request through the real handler)",
+        "trusted_base": ["strconv.ParseInt semantics", "encoding/json + base64 of ct.GetEntriesResponse", "scripted TrillianLogClient"],
+        "assumptions": ["backend RPC errors never map to HTTP 200 (proved for gRPC codes 1..16 under C08)"],
+        "partial": ["decode_recovers_submission and get-entry-and-proof byte equality are stated under C04/C08 models"],
+    },
 }
